@@ -775,3 +775,19 @@ M('c17-send-gate-reraises-unclassified', 'C17', 'R2', WS, """            transla
 """, """            translated_ex = None
             if translated_ex:
 """)
+
+# ---- auto-mutation seeds sa-am01299 / sa-am01349 (R4): type partition of the close code {None, int, other}; end of the reserved
+# block is 1999 (2000-2999 is the extension range of the page close() documents as its reference)
+M('c17-code-non-int-not-rejected', 'C17', 'R4', WS, "            raise ValueError('code must be an int')\n", "            pass\n")
+M('c17-code-type-guard-dropped', 'C17', 'R4', WS,
+  "        elif not isinstance(code, int):\n            raise ValueError('code must be an int')\n        elif code < 1000:\n",
+  "        elif code < 1000:\n")
+M('c17-code-type-guard-after-range-tests', 'C17', 'R4', WS,
+  "        elif not isinstance(code, int):\n            raise ValueError('code must be an int')\n        elif code < 1000:\n"
+  "            raise ValueError('Invalid close code. The value must be >= 1000')\n",
+  "        elif code < 1000:\n            raise ValueError('Invalid close code. The value must be >= 1000')\n"
+  "        elif not isinstance(code, int):\n            raise ValueError('code must be an int')\n")
+M('c17-code-type-guard-raises-typeerror-only-for-str', 'C17', 'R4', WS, "        elif not isinstance(code, int):\n",
+  "        elif isinstance(code, str):\n")
+M('c17-code-reserved-block-ends-2000', 'C17', 'R4', WS, _RESERVED, "        elif 1015 <= code <= 2000 or 1004 <= code <= 1006:\n")
+M('c17-code-rejects-extension-range', 'C17', 'R4', WS, _RESERVED, "        elif 1015 <= code <= 2999 or 1004 <= code <= 1006:\n")
